@@ -67,3 +67,15 @@ func FindImportSpec(f *ast.File, path string) *ast.ImportSpec {
 	}
 	return nil
 }
+
+// FindImportSpecIn finds and returns the ImportSpec for an import with the
+// given import path in an import declaration, returning nil if a matching
+// ImportSpec was not found.
+func FindImportSpecIn(decl *ast.GenDecl, path string) *ast.ImportSpec {
+	for _, spec := range decl.Specs {
+		if imp, ok := spec.(*ast.ImportSpec); ok && ImportPath(imp) == path {
+			return imp
+		}
+	}
+	return nil
+}
